@@ -210,6 +210,10 @@ def run(ctx):
     n = 600 if quick else 6000
     for r in core.pmap(noise_worker, [(ctx.seed * 1000 + k, n // 16) for k in range(16)], chunksize=1):
         if "harness_exception" in r:
+            lf = core.library_failure(r)
+            if lf is not None:
+                ctx.violation(lf)
+                continue
             raise tlc.MachineryError("noise worker failed: %s" % r)
         ctx.count(r["n"])
         ctx.traces += r["n"]
